@@ -213,11 +213,47 @@ def main(tier=None):
                             if not f.vars and len(raw) > f.hdr_len + 3: ck.violation(('clobber', 'close', 'file not trimmed'), p.case.text(), p.case.name + ': file without variables is %d bytes, header needs %d' % (len(raw), f.hdr_len))
                             if f.vars and b'\xaa' * 16 in raw: ck.violation(('clobber', 'create', 'predecessor bytes in file'), p.case.text(), p.case.name + ': 0xAA run of the clobbered file survives in the new file')
                         except cdf.CDFError: pass
+    # ---- headers of files with variables above the 32-bit vsize range (no data is written: the files stay header-sized)
+    big = []
+    G31, G32 = 1 << 31, 1 << 32
+    for fmt, np_ in itertools.product((1, 2, 5), (1, 2)):
+        for kind in ('fixed-last', 'record-last', 'record-only'):
+            if fmt == 1 and kind != 'fixed-last': continue
+            c = Case('BIGHDR-f%d-%s-np%d' % (fmt, kind, np_), np_)
+            c.op('*', 'create', f=0, path='a.nc', fmt=fmt, hints='nc_header_align_size=4;nc_var_align_size=4;nc_record_align_size=4')
+            c.op('*', 'def_dim', f=0, name='t', unlim=1); c.op('*', 'def_dim', f=0, name='z', len=5)
+            c.op('*', 'def_dim', f=0, name='x', len=3); c.op('*', 'def_dim', f=0, name='y', len=G31 - 8)
+            if kind == 'fixed-last':
+                c.op('*', 'def_var', f=0, name='small', xtype='byte', dims=[1]); c.op('*', 'def_var', f=0, name='big', xtype='byte', dims=[2, 3])
+            elif kind == 'record-last':
+                c.op('*', 'def_var', f=0, name='small', xtype='byte', dims=[1]); c.op('*', 'def_var', f=0, name='rs', xtype='short', dims=[0]); c.op('*', 'def_var', f=0, name='rbig', xtype='byte', dims=[0, 2, 3])
+            else:
+                c.op('*', 'def_var', f=0, name='rbig', xtype='short', dims=[0, 2, 3])
+            le = c.op('*', 'enddef', f=0)
+            ls = c.op('*', 'sweep', f=0, nomfp=1)
+            c.op('*', 'barrier'); sn = c.op(0, 'snap', path='a.nc', ranges=[0, 2048]); c.op('*', 'barrier')
+            c.op('*', 'close', f=0)
+            c.op('*', 'barrier'); sn2 = c.op(0, 'snap', path='a.nc', ranges=[0, 2048]); c.op(0, 'unlink', path='a.nc')
+            big.append((c, le, ls, sn, sn2))
+    bres = runner.run_cases(b['vx'], [x[0] for x in big], batch=10)
+    for (c, le, ls, sn, sn2), r in zip(big, bres):
+        ck.cov['evaluations'] += 1
+        if r.status != 'ok': ck.violation((r.status, 'large variable', first_frame(r.detail)), c.text(), c.name + ': ' + r.detail[:400]); continue
+        if r.rc(0, le) != 0: ck.violation(('rc', 'enddef', 'large variable'), c.text(), '%s: enddef returned %d' % (c.name, r.rc(0, le))); continue
+        for label, ln in (('after enddef', sn), ('after close', sn2)):
+            o = r.r(0, ln)
+            try:
+                hf = cdf.decode(bytes.fromhex(o.get('hex', '')), with_data=False, strict=True)
+                lo, _ = fileck.check_layout(hf, r.r(0, ls).json())
+                if lo: ck.violation(('layout', 'large variable', lo[0][0]), c.text(), '%s %s: %s' % (c.name, label, lo[0][1])); break
+            except cdf.CDFError as e:
+                ck.violation(('not_wellformed', 'large variable', e.kind), c.text(), '%s %s: header does not decode: %s' % (c.name, label, e)); break
+        ck.outcomes.add(('bighdr', c.name))
     ck.cov['distinct_nontrivial'] = len(ck.outcomes)
     ck.cov['checkpoints'] = ncp
     ck.cov['rule'] = ('product of dimension sets x global-attribute sets (every type, zero/odd lengths, UTF-8 names) x variable sets (fixed/record in every order, odd element sizes, exactly-one-record-variable) '
                       'x 8 alignment configurations (info hints, ncmpi__enddef arguments, PNETCDF_HINTS) x 4 histories (enddef; +write+sync; +redef adding objects; +data-mode rename/put_att) x formats x np in {1,2} '
-                      '(quick: a 1/8 cyclic sub-product); at every up-to-date point the file bytes are decoded by engine/cdf.py and compared with the model and the layout invariants; distinct_nontrivial = distinct file images')
+                      '(quick: a 1/8 cyclic sub-product); at every up-to-date point the file bytes are decoded by engine/cdf.py and compared with the model and the layout invariants; plus the headers of files whose last fixed-size / last record variable exceeds 2^32-4 bytes (vsize saturation) in every format that allows it; distinct_nontrivial = distinct file images')
     ck.sample(progs[0].case.text()[:1500]); ck.sample(progs[len(progs) // 2].case.text()[:1800])
     ck.assumptions += ['the precedence between MPI_Info hints and ncmpi__enddef arguments is documented inconsistently; only the reported effective values are checked against the layout', 'codec engine/cdf.py is the trusted base (self-tested, cross-checked with ncvalidator)']
     runner.cleanup()
